@@ -38,7 +38,11 @@ def enc_tags(d):
     """server tags as the model's sorted association list"""
     if not d:
         return '-'
-    return '+'.join(wire.enc(k) + '=' + wire.enc_opt(d[k]) for k in sorted(d))
+    # labels drawn by makeLabel() (patched to 'auto<n>') are random: only their presence is compared
+    canon = lambda k, v: 'auto' if k == 'label' and isinstance(v, str) and AUTO_RE.match(v) else v
+    return '+'.join(wire.enc(k) + '=' + wire.enc_opt(canon(k, d[k])) for k in sorted(d))
+import re as _re
+AUTO_RE = _re.compile(r'^auto[0-9]+$')
 URGENT = ('PONG', 'MODE', 'KICK', 'NICK', 'PASS')
 BULK = ('PRIVMSG', 'NOTICE', 'JOIN', 'WHO', 'PING')
 PLAIN = ('QUIT', 'PART', 'TOPIC', 'CAP')
@@ -115,6 +119,13 @@ class Impl(object):
     def __init__(self):
         self.b, self.clk = env()
         time.time = self.clk.virtual       # virtual clock while a case runs (restored in close())
+        iu = self.b.irclib.ircutils
+        self._real_makeLabel = iu.makeLabel
+        self._nlabel = 0
+        def makeLabel():
+            self._nlabel += 1
+            return 'auto%d' % self._nlabel
+        iu.makeLabel = makeLabel
         self.irc = None
         self.rules = []
         self.cfg = (0, 0, False, True, 120)
@@ -156,7 +167,8 @@ class Impl(object):
         irc = self.irc
         f, h, n, l = self.queues()
         bits = ''.join('1' if x else '0' for x in (irc.zombie, irc.afterConnect, irc.outstandingPing,
-                                                   'echo-message' in irc.state.capabilities_ack))
+                                                   'echo-message' in irc.state.capabilities_ack,
+                                                   'labeled-response' in irc.state.capabilities_ack))
         return '%d|%d|%d|%d|%s\t%s\t%s\t%s\t%s' % (self.clk.t, int(irc.lastTake), int(irc.queue.lastJoin), int(irc.lastping),
                                                     bits, self.sers(f), self.sers(h), self.sers(n), self.sers(l))
 
@@ -224,6 +236,7 @@ class Impl(object):
 
     def close(self):
         time.time = self.clk.real
+        self.b.irclib.ircutils.makeLabel = self._real_makeLabel
         w = self.b.world
         if self.irc is not None and self.irc in w.ircs:
             w.ircs.remove(self.irc)
@@ -321,6 +334,12 @@ class Impl(object):
                 irc.state.capabilities_ack.add('echo-message')
             else:
                 irc.state.capabilities_ack.discard('echo-message')
+        elif k == 'caplabel':
+            if op[1]:
+                irc.state.capabilities_ack.add('labeled-response')
+            else:
+                irc.state.capabilities_ack.discard('labeled-response')
+            self.tags.add('cap-labeled-response-%s' % ('on' if op[1] else 'off'))
         if k not in ('queue', 'send', 'take'):
             after_l = self.pending()
             after = collections.Counter(id(x) for x in after_l)
@@ -343,6 +362,9 @@ class Impl(object):
         del self.chain[:]
         now = self.clk.t
         th, jl = self.cfg[0], self.cfg[1]
+        # the label (labeled-response) is written into the dequeued object itself: describe the
+        # sources as they were queued
+        pre = dict((id(x), self.ser(x)) for q in bq for x in q)
         r = self.take_fn()
         self.last_taken = r
         chain = [list(e) for e in self.chain]
@@ -385,7 +407,9 @@ class Impl(object):
                             continue
                         break
             self.note_gone(src)
-            parts.append(('F' if fast else 'Q') + self.ser(src) + '>' + ('X' if out is None else self.ser(out)))
+            parts.append(('F' if fast else 'Q') + pre.get(id(src), self.ser(src)) + '>' + ('X' if out is None else self.ser(out)))
+            if out is not None and 'label' in out.server_tags and AUTO_RE.match(out.server_tags['label'] or ''):
+                self.tags.add('label-added')
             if out is None:
                 self.tags.add('filter-drop-fast' if fast else 'filter-drop-queue')
                 if last and r is not None:
@@ -576,8 +600,8 @@ def model_lines(ops, connect):
             L.append('%s\t%s' % (k, enc_content(op[1], op[2])))
         elif k == 'tick':
             L.append('tick\t%d' % op[1])
-        elif k == 'capecho':
-            L.append('capecho\t%d' % (1 if op[1] else 0))
+        elif k in ('capecho', 'caplabel'):
+            L.append('%s\t%d' % (k, 1 if op[1] else 0))
         else:
             L.append(k)
     return L
@@ -682,7 +706,7 @@ def gen_ops(r, maxlen=60, reuse=False):
         elif x < 0.94:
             ops.append(['pong'])
         elif x < 0.955:
-            ops.append(['capecho', r.random() < 0.5])
+            ops.append(['capecho', r.random() < 0.5] if reuse or r.random() < 0.5 else ['caplabel', r.random() < 0.7])
         elif x < 0.98:
             ops.append(gen_cfg(r))
         else:
